@@ -271,6 +271,15 @@ class Program:
                         and not any(isinstance(v_, ast.Starred) for v_ in node.value.elts):
                     for x, v_ in zip(t.elts, node.value.elts):      # A, B = 1, 2 at module level
                         mi.assigns.setdefault(x.id, []).append(v_)
+                elif isinstance(t, (ast.Tuple, ast.List)) and all(isinstance(x, ast.Name) for x in t.elts):
+                    # A, B = <any expression yielding len(targets) items> (a generator expression, a call): the i-th target is
+                    # item i of the value, written as the subscript expression the evaluator folds
+                    for i_, x in enumerate(t.elts):
+                        sub = ast.Subscript(value=ast.Call(func=ast.Name(id='tuple', ctx=ast.Load()), args=[node.value], keywords=[]),
+                                            slice=ast.Constant(value=i_), ctx=ast.Load())
+                        ast.copy_location(sub, node)
+                        ast.fix_missing_locations(sub)
+                        mi.assigns.setdefault(x.id, []).append(sub)
         elif isinstance(node, ast.AnnAssign):
             if isinstance(node.target, ast.Name) and node.value is not None:
                 mi.assigns.setdefault(node.target.id, []).append(node.value)
